@@ -17,7 +17,7 @@ ENV.pop('GOTOOLCHAIN', None)
 
 
 def sh(cmd, cwd=None, timeout=1800):
-    p = subprocess.run(cmd, cwd=cwd, env=ENV, capture_output=True, text=True, timeout=timeout)
+    p = subprocess.run(cmd, cwd=cwd, env=ENV, capture_output=True, text=True, errors='replace', timeout=timeout)
     return p.returncode, (p.stdout + p.stderr)
 
 
